@@ -259,6 +259,22 @@ class ExportedOnly:
 
 def exportedAlias():
     return 2
+
+
+class Converter:
+    def toCelsius(self, f):
+        return round((f - 32) / 1.8, 1)
+
+    @staticmethod
+    def toKelvin(c):
+        return c + 273
+
+
+def makeConverter():
+    return Converter()
+
+
+defaultConverter = Converter()
 '''
 USES = {
     "run": ("from lib import run", "print(run('x'))"), "join": ("import lib", "print(lib.join(['a', 'b']))"), "describe": ("from lib import describe as d", "print(d(3))"),
@@ -272,6 +288,9 @@ USES = {
     "ctor:Gauge": ("from lib import Gauge", "print(Gauge(3), len(Gauge(4)), Gauge(2) == Gauge(2))"),
     # names only imported (re-exported), never used
     "reexport:exported_only": ("from lib import exported_only, ExportedOnly", "print('imported')"), "reexport-alias": ("from lib import exportedAlias as ea", "print('imported alias')"),
+    # methods of a class the client never names: reached through a factory or a module-level instance
+    "factory:Converter.toCelsius": ("from lib import makeConverter", "print(makeConverter().toCelsius(212))"), "instance:Converter.toKelvin": ("import lib", "print(lib.defaultConverter.toKelvin(1))"),
+    "factory:Converter.toKelvin": ("from lib import makeConverter as mk", "print(mk().toKelvin(2))"),
     # getattr / hasattr with a literal name is beyond the tool's reach by design: not part of the space
 }
 
